@@ -46,7 +46,9 @@ def assigned_names(stmts):
             elif isinstance(n, ast.Expr) and isinstance(n.value, ast.Yield):
                 out.append("«yield»")
             elif isinstance(n, ast.Expr) and isinstance(n.value, ast.Call) and isinstance(n.value.func, ast.Attribute) \
-                    and n.value.func.attr in ("append", "pop", "insert", "extend", "add", "add_edge"):
+                    and isinstance(n.value.func.value, (ast.Name, ast.Attribute)):
+                # a method call as a statement may change its receiver (append, pop, a command of an effect object):
+                # the receiver is carried through loops and joins (an over-approximation is harmless)
                 tgt(n.value.func.value)
     seen = []
     for x in out:
@@ -85,7 +87,11 @@ class StmtMixin:
                 raise Unsupported("return with a value inside a generator")
             return self.finish_return(*env["«yield»"])
         if s.value is None:
+            if self.effect_self:
+                return self.finish_return(*env["self"])
             return self.finish_return("()", NONE)
+        if self.effect_self:
+            raise Unsupported("a procedure on an effect object returning a value")
         return self.expr(s.value, env, self.finish_return)
 
     def finish_return(self, c, t):
@@ -150,7 +156,7 @@ class StmtMixin:
             if f.attr == "pop" and key in env and not v.args:
                 return self.pop_stmt(key, None, env, nxt)
             if key in env and isinstance(resolve(env[key][1]), TBuilder) and resolve(env[key][1]).cmd == f.attr \
-                    and not v.keywords:
+                    and self.command_keywords_ok(resolve(env[key][1]), v):
                 nm, bt = env[key]
                 bt = resolve(bt)
                 if len(v.args) != len(bt.cmd_types):
@@ -164,10 +170,83 @@ class StmtMixin:
                     env2[key] = (nm2, bt)
                     return "let {} := ({}.1, {}.2 ++ [{}])\n{}".format(nm2, nm, nm, cmd, nxt(env2))
                 return self.exprs(list(v.args), env, fin_c)
+        if isinstance(v, ast.Call) and self.effect_self and isinstance(v.func, ast.Attribute) \
+                and src(v.func.value) == "self":
+            return self.effect_call(v, env, nxt)
         if isinstance(v, ast.Call):
             # a call for its exceptions only (argument validators)
             return self.expr(v, env, lambda c, t: nxt(env))
         raise Unsupported("expression statement " + src(s))
+
+    def command_keywords_ok(self, bt, call):
+        """keywords of a command must be the constants the specs declare (`check=False`)"""
+        allowed = self.reg.builders[bt.cls].get("keywords", {})
+        for kw in call.keywords:
+            if kw.arg not in allowed or not isinstance(kw.value, ast.Constant) or kw.value.value != allowed[kw.arg]:
+                return False
+        return True
+
+    def effect_call(self, v, env, nxt):
+        """`self.m(…)` as a statement inside a procedure on an effect object: an abstract call (observer function) or a
+        call of the procedure itself (recursion, bounded by `fuel` = Python's recursion limit)"""
+        name = v.func.attr
+        b = self.reg.builders[resolve(env["self"][1]).cls]
+        calls = b.get("calls", {})
+        if name in calls:
+            ptys, rty, raises = calls[name]
+            if v.keywords or len(v.args) != len(ptys):
+                raise Unsupported("abstract call form " + src(v))
+            ob = "self_" + name.strip("_")
+            if not any(n == ob for n, _, _ in self.observers):
+                from py2lean_types import TFun
+                self.observers.append((ob, TFun(ptys, rty, raises), ("call", name, None)))
+
+            def fin_o(vs):
+                code = " ".join([ob] + [coerce(c, t, pt) for (c, t), pt in zip(vs, ptys)])
+                if raises:
+                    return self.bind(code, rty, lambda _c, _t: nxt(env), "u")
+                return nxt(env)
+            return self.exprs(list(v.args), env, fin_o)
+        fn = self.current_method
+        if fn is not None and name == fn.pyname:
+            self.recursive = True
+            params = list(fn.params)
+            names = [p for p, _ in params]
+            given = {}
+            for i, a in enumerate(v.args):
+                given[names[i]] = a
+            for kw in v.keywords:
+                if kw.arg not in names:
+                    raise Unsupported("unknown keyword " + str(kw.arg))
+                given[kw.arg] = kw.value
+            order = [p for p in names if p in given or p in fn.defaults]
+            if len(order) != len(names):
+                raise Unsupported("missing argument in the recursive call")
+
+            def fin_r(vs):
+                codes = [coerce(c, t, pt) for (c, t), (_, pt) in zip(vs, params)]
+                obs = [n for n, _, _ in self.observers_of_self()]
+                call = " ".join([fn.lean, "fuel", env["self"][0]] + ["({})".format(c) if " " in c and not c.startswith("(") and not c.startswith("[") else c for c in codes] + obs)
+
+                def after(r, _t):
+                    env2 = dict(env)
+                    env2["self"] = (r, env["self"][1])
+                    return nxt(env2)
+                return self.bind(call, env["self"][1], after, "self")
+            return self.exprs([given.get(p, fn.defaults.get(p)) for p in names], env, fin_r)
+        raise Unsupported("method self.{} of an effect object".format(name))
+
+    def observers_of_self(self):
+        """observer parameters must be passed on in a recursive call: all of them are declared up front"""
+        b = self.reg.builders[self.current_method.self_ty.cls]
+        out = []
+        from py2lean_types import TFun
+        for name, (ptys, rty, raises) in b.get("calls", {}).items():
+            ob = "self_" + name.strip("_")
+            if not any(n == ob for n, _, _ in self.observers):
+                self.observers.append((ob, TFun(ptys, rty, raises), ("call", name, None)))
+            out.append((ob, None, None))
+        return out
 
     def check_mutable(self, key):
         if key in self.aliased:
